@@ -431,3 +431,47 @@ sub('statistics/scalarDistribution/gamma.go','''  if x.GetFloat64() <= 0.0 {
     return nil
   }
   r.Mul(x, dist.Beta)''')
+# --- batch L rules
+# C19.R8: deleteRec restructured (result of balance2 still propagated)
+sub('avl-tree.go','''    if v, balanced := obj.Right.deleteRec(obj); !balanced {
+      balanced = obj.balance2(balanced)
+      return v, balanced
+    } else {
+      return v, balanced
+    }''','''    v, shrunk := obj.Right.deleteRec(obj)
+    if shrunk {
+      return v, true
+    }
+    still := obj.balance2(shrunk)
+    return v, still''')
+# C14.R10: running offset instead of re-slicing
+sub('statistics/scalarDistribution/mixture.go','''    for i := 0; i < obj.NComponents(); i++ {
+      n := obj.Edist[i].GetParameters().Dim()
+      if err := obj.Edist[i].SetParameters(parameters.Slice(0,n)); err != nil {
+        return err
+      }
+      parameters = parameters.Slice(n, parameters.Dim())
+    }''','''    off := 0
+    for i := 0; i < obj.NComponents(); i++ {
+      m := obj.Edist[i].GetParameters().Dim()
+      e := obj.Edist[i]
+      if err := e.SetParameters(parameters.Slice(off, off+m)); err != nil {
+        return err
+      }
+      off += m
+    }''')
+# C18.R16: scan through a local
+sub('scalar_real64.go','''          if obj.GetHessian(i, j) != 0.0 {
+            t2 = true
+          }''','''          h := obj.GetHessian(i, j)
+          if h != 0.0 {
+            t2 = true
+          }''')
+# C13.R4 tail/head: reordered sums
+sub('special/besselLog.go','''Iv = logScale + W - LogAdd(Kv + fv, Kv1)''','''den := LogAdd(fv + Kv, Kv1)
+      Iv = W - den + logScale''')
+sub('special/besselLog.go','''  K = Kv - logScale
+
+  return I, K''','''  K = -logScale + Kv
+
+  return I, K''')
